@@ -343,6 +343,90 @@ def generate(tier, seed):
                 if rng.random() < 0.5:
                     prog.append(rng.choice([['rows'], ['dict'], ['sort', len(sch)], ['cats'], ['iter']]))
                 cases.append(dict(cls=cname, schema=sch, c0=c0, c1=c1, prog=prog))
+    # (8) hidden state between two calls: an operation applied DIRECTLY to a table just produced by indexing
+    #     (permutation, reversed / strided slice, mask, non-prefix slice).  Every case is run twice by observe(): once
+    #     observing each intermediate table, once without looking at any — both must agree with the specification.
+    for rep in range(3 if tier == 'quick' else 12):
+        for k in ['dna', 'str', 'id', 'strand', 'int', 'list', 'float', 'bool', ['nested', [['a', 'int'], ['q', 'dna']]]]:
+            sch = [['f0', k], ['f1', rng.choice(['int', 'dna', 'str'])], ['f2', rng.choice(['id', 'list', 'dna'])]]
+            n0, n1 = rng.randint(4, 7), rng.choice([1, 2, 3])
+            c0 = [_gen_col(rng, kk, n0) for _, kk in sch]
+            c1 = [_gen_col(rng, kk, n1) for _, kk in sch]
+            perm = list(range(n0))
+            rng.shuffle(perm)
+            first = rng.choice([['take', perm], ['take', [rng.randrange(n0) for _ in range(n0 - 1)]], ['slice', None, None, -1],
+                                ['slice', None, None, -2], ['slice', 1, None, 2], ['slice', 2, None, 1], ['slice', -3, None, 1],
+                                ['mask', [int(i % 3 != 1) for i in range(n0)]], ['mask', [rng.randint(0, 1) for _ in range(n0)]]])
+            n = len(list(range(n0))[slice(first[1], first[2], first[3])]) if first[0] == 'slice' else \
+                len(first[1]) if first[0] == 'take' else sum(first[1])
+            second = rng.choice([['sort', 0], ['sort', 0], ['sort', 1], ['sort', 2], ['catr'], ['catl'], ['cats'], ['cat3'],
+                                 ['replace', 1, _gen_col(rng, sch[1][1], n)], ['replace', 0, _gen_col(rng, k, n)],
+                                 ['rows'], ['dict'], ['pandas'], ['add', 'z1', 'dna', _gen_col(rng, 'dna', n), True],
+                                 ['take', [n - 1, 0] if n else []], ['slice', None, None, -1]])
+            prog = [first, second]
+            if rng.random() < 0.5:
+                prog.append(rng.choice([['sort', 0], ['sort', 2], ['cats'], ['slice', None, None, -1], ['rows']]))
+            cases.append(dict(cls='dyn', schema=sch, c0=c0, c1=c1, prog=prog))
+    # (9) int columns given as every integer dtype and as python ints at the limits of the 64-bit range; the rows are
+    #     the list-of-tuples values: a value the library cannot hold must make it raise, never wrap or change
+    B = 2 ** 63
+    def int_col(n, kind):
+        import numpy as _np                      # only iinfo (limits), no bionumpy
+        if kind in ('int8', 'int16', 'int32', 'int64', 'uint8', 'uint16', 'uint32', 'uint64'):
+            info = _np.iinfo(kind)
+            pool = [int(info.min), int(info.max), int(info.max) - 1, int(info.min) + 1, 0, 1, int(info.max) // 2 + 1]
+            if kind == 'uint64' and rng.random() < 0.6:
+                pool = [B, B + 1, 2 ** 64 - 1, 2 ** 64 - 2, B + 12345]          # all at or above 2**63
+            return dict(arr=kind, v=[rng.choice(pool) for _ in range(n)])
+        pools = dict(big=[B, B + 1, 2 ** 64 - 1, B + 7, 2 ** 64 - 2],            # NumPy infers uint64
+                     edge=[-B, B - 1, -B + 1, B - 2, 0, -1],                     # the int64 limits
+                     mixed=[5, 2 ** 64 - 1, B, 0, B + 1, 3],                     # below and at/above 2**63: one uint64 holds them
+                     mixneg=[-1, 2 ** 64 - 1, B, -B],                            # no 64-bit integer type holds them: must raise
+                     over=[2 ** 64, -B - 1, 1, 2 ** 70])                         # outside the 64-bit range: must raise
+        col = [rng.choice(pools[kind]) for _ in range(n)]
+        if kind == 'mixed' and n >= 2:
+            col[0], col[1] = 5, 2 ** 64 - 1
+        if kind == 'mixneg' and n >= 2:
+            col[0], col[1] = -1, 2 ** 64 - 1
+        if kind == 'over' and n >= 1:
+            col[0] = rng.choice([2 ** 64, -B - 1])
+        return dict(big=col)
+    KINDS9 = ['int8', 'int16', 'int32', 'int64', 'uint8', 'uint16', 'uint32', 'uint64', 'uint64', 'big', 'big', 'edge', 'mixed', 'mixneg', 'over']
+    for rep in range(2 if tier == 'quick' else 8):
+        for kind in KINDS9:
+            sch = [['f0', rng.choice(['int', 'opt'])], ['f1', rng.choice(['str', 'id', 'dna'])]]
+            n0, n1 = rng.choice([2, 3, 4]), rng.choice([1, 2])
+            c0 = [int_col(n0, kind), _gen_col(rng, sch[1][1], n0)]
+            c1 = [int_col(n1, kind), _gen_col(rng, sch[1][1], n1)]
+            prog = []
+            if kind not in ('mixneg', 'over'):
+                n = n0
+                for _ in range(rng.choice([1, 2, 3])):
+                    o = rng.choice(['take', 'slice', 'mask', 'sort', 'cats', 'catr', 'rows', 'dict', 'pandas', 'index', 'iter',
+                                    'replace1', 'replace0', 'add'])
+                    if o == 'take':
+                        prog.append(['take', [rng.randrange(n) for _ in range(n)] if n else []])
+                    elif o == 'slice':
+                        prog.append(['slice', None, None, -1])
+                    elif o == 'mask':
+                        prog.append(['mask', [1] * n])
+                    elif o == 'sort':
+                        prog.append(['sort', 0])
+                    elif o == 'cats':
+                        prog.append(['cats']); n = 2 * n
+                    elif o == 'catr' and kind != 'mixed':
+                        prog.append(['catr']); n = n + n1
+                    elif o == 'replace1':
+                        prog.append(['replace', 1, _gen_col(rng, sch[1][1], n)])
+                    elif o == 'replace0':
+                        prog.append(['replace', 0, int_col(n, kind)])
+                    elif o == 'add':
+                        prog.append(['add', 'z1', 'str', _gen_col(rng, 'str', n), True]); break
+                    elif o in ('rows', 'dict', 'pandas', 'iter'):
+                        prog.append([o])
+                    elif o == 'index':
+                        prog.append(['index', rng.randint(-n, n - 1) if n else 0])
+            cases.append(dict(cls='dyn', schema=sch, c0=c0, c1=c1, prog=prog))
     return cases
 
 
@@ -361,7 +445,20 @@ def _pytype(k, cache):
                 dna=DNAEncoding, strand=StrandEncoding)[k]
 
 
+def _vals(col):
+    """the plain value list of a column (an int column may be given as {'arr': dtype, 'v': [...]} = a NumPy array of
+    that dtype, or {'big': [...]} = a python list of ints of any magnitude)"""
+    return col['v'] if isinstance(col, dict) and 'arr' in col else col['big'] if isinstance(col, dict) else col
+
+
+def _ncol(k, col):
+    return len(col[0]) if _is_nested(k) and col else len(_vals(col))
+
+
 def _pycol(k, col, cache):
+    if isinstance(col, dict):
+        import numpy as np
+        return np.array(col['v'], dtype=col['arr']) if 'arr' in col else [int(v) for v in col['big']]
     if _is_nested(k):
         return _pytype(k, cache)(*[_pycol(sk, c, cache) for (_, sk), c in zip(k[1], col)])
     if k == 'float':
@@ -476,6 +573,56 @@ def _observe_table(t):
     return dict(cols=_rep(t), rows=rows, keys=[k for k in t.todict().keys()], n=len(t))
 
 
+def _sch_after(op, cur_sch, base):
+    if op[0] == 'add':
+        return cur_sch + [[op[1], op[2]]]
+    if op[0] == 'addt1':
+        return [list(f) for f in base] + [[op[1], op[2]]]
+    return cur_sch
+
+
+def _apply_op(op, cur, t1, cur_sch, cache):
+    """one table-producing operation through the public API; nothing else touches cur or the result"""
+    import dataclasses
+    import numpy as np
+    import bionumpy as bnp
+    o = op[0]
+    if o == 'take':
+        return cur[np.array(op[1], dtype=int)]
+    if o == 'mask':
+        return cur[np.array(op[1], dtype=bool)]
+    if o == 'slice':
+        return cur[slice(op[1], op[2], op[3])]
+    if o == 'catr':
+        return np.concatenate([cur, t1])
+    if o == 'catl':
+        return np.concatenate([t1, cur])
+    if o == 'cats':
+        return np.concatenate([cur, cur])
+    if o == 'cat3':
+        return np.concatenate([cur, t1, cur])
+    if o == 'sort':
+        return cur.sort_by(cur_sch[op[1]][0])
+    if o == 'replace':
+        name, k = cur_sch[op[1]]
+        return bnp.replace(cur, **{name: _pycol(k, op[2], cache)})
+    if o == 'add':
+        _, name, k, col, use_map = op
+        return cur.add_fields({name: _pycol(k, col, cache)}, {name: _pytype(k, cache)} if use_map else None)
+    if o == 'addt1':
+        _, name, k, col, use_map = op
+        return t1.add_fields({name: _pycol(k, col, cache)}, {name: _pytype(k, cache)} if use_map else None)
+    if o == 'rows':
+        names = [f.name for f in dataclasses.fields(cur)]
+        tuples = [tuple(getattr(e, n) for n in names) for e in cur.tolist()]
+        return type(cur).from_entry_tuples(tuples)
+    if o == 'dict':
+        return type(cur).from_dict(cur.todict())
+    if o == 'pandas':
+        return type(cur).from_data_frame(cur.topandas())
+    raise ValueError(o)
+
+
 def observe(case):
     import dataclasses
     import numpy as np
@@ -504,60 +651,26 @@ def observe(case):
     if tabs[0][0] is None or tabs[1][0] is None:
         out['after'] = [out['t0'], out['t1']]
         out['unchanged'] = True
+        out['lazy'] = out['t0']
+        out['lazy_errs'] = []
         return out
     cur, t1 = tabs[0][0], tabs[1][0]
     cur_sch = [list(f) for f in sch]
     for op in case['prog']:
         try:
-            new = None
             o = op[0]
-            if o == 'take':
-                new = cur[np.array(op[1], dtype=int)]
-            elif o == 'mask':
-                new = cur[np.array(op[1], dtype=bool)]
-            elif o == 'slice':
-                new = cur[slice(op[1], op[2], op[3])]
-            elif o == 'catr':
-                new = np.concatenate([cur, t1])
-            elif o == 'catl':
-                new = np.concatenate([t1, cur])
-            elif o == 'cats':
-                new = np.concatenate([cur, cur])
-            elif o == 'cat3':
-                new = np.concatenate([cur, t1, cur])
-            elif o == 'sort':
-                new = cur.sort_by(cur_sch[op[1]][0])
-            elif o == 'replace':
-                name, k = cur_sch[op[1]]
-                new = bnp.replace(cur, **{name: _pycol(k, op[2], cache)})
-            elif o == 'add':
-                _, name, k, col, use_map = op
-                new = cur.add_fields({name: _pycol(k, col, cache)}, {name: _pytype(k, cache)} if use_map else None)
-            elif o == 'addt1':
-                _, name, k, col, use_map = op
-                new = t1.add_fields({name: _pycol(k, col, cache)}, {name: _pytype(k, cache)} if use_map else None)
-            elif o == 'rows':
-                names = [f.name for f in dataclasses.fields(cur)]
-                tuples = [tuple(getattr(e, n) for n in names) for e in cur.tolist()]
-                new = type(cur).from_entry_tuples(tuples)
-            elif o == 'dict':
-                new = type(cur).from_dict(cur.todict())
-            elif o == 'pandas':
-                new = type(cur).from_data_frame(cur.topandas())
-            elif o == 'index':
+            if o == 'index':
                 out['steps'].append(dict(rowsonly=[_entry_cells(cur[op[1]])]))
                 continue
-            elif o == 'iter':
+            if o == 'iter':
                 out['steps'].append(dict(rowsonly=[_entry_cells(e) for e in cur]))
                 continue
+            new = _apply_op(op, cur, t1, cur_sch, cache)
             ob = _observe_table(new)
             out['steps'].append(ob)
             tabs.append((new, ob))
             cur = new
-            if o == 'add':
-                cur_sch.append([op[1], op[2]])
-            if o == 'addt1':
-                cur_sch = [list(f) for f in sch] + [[op[1], op[2]]]
+            cur_sch = _sch_after(op, cur_sch, sch)
         except Exception as e:
             out['steps'].append(dict(err=type(e).__name__, msg=str(e)[:120]))
     after = []
@@ -573,6 +686,34 @@ def observe(case):
             unchanged = False
     out['after'] = after
     out['unchanged'] = unchanged
+    # the same program once more on fresh operands, WITHOUT looking at any intermediate table between two operations
+    try:
+        lcur = cls(*[_pycol(k, c, cache) for (_, k), c in zip(sch, case['c0'])])
+        lt1 = cls(*[_pycol(k, c, cache) for (_, k), c in zip(sch, case['c1'])])
+        lsch = [list(f) for f in sch]
+        errs = []
+        for op in case['prog']:
+            try:
+                if op[0] == 'iter':
+                    errs.append(False)
+                    continue
+                if op[0] == 'index':
+                    lcur[op[1]]
+                    errs.append(False)
+                    continue
+                lcur = _apply_op(op, lcur, lt1, lsch, cache)
+                lsch = _sch_after(op, lsch, sch)
+                errs.append(False)
+            except Exception:
+                errs.append(True)
+        out['lazy_errs'] = errs
+        try:
+            out['lazy'] = _observe_table(lcur)
+        except Exception as e:
+            out['lazy'] = dict(err=type(e).__name__, msg=str(e)[:120])
+    except Exception as e:
+        out['lazy'] = dict(err=type(e).__name__)
+        out['lazy_errs'] = []
     return out
 
 
@@ -605,6 +746,8 @@ def _mb_in(k, v):
 
 
 def _colarg(k, col):
+    if isinstance(col, dict):
+        return '(%s %s)' % ('AArr' if 'arr' in col else 'ABig', zl([4 * int(v) for v in _vals(col)]))
     if _is_nested(k):
         return '(ANest %s)' % clist([clist([_mb_in(sk, v) for v in c], 'mb') for (_, sk), c in zip(k[1], col)], 'list mb')
     return '(ABase %s)' % clist([_mb_in(k, v) for v in col], 'mb')
@@ -682,7 +825,7 @@ def _op(op, sch, base=None):
 def to_coq(case, o):
     sch = case['schema']
     if 'schema_drift' in o:
-        o = dict(t0=None, t1=None, steps=[], after=[None, None], unchanged=False)
+        o = dict(t0=None, t1=None, steps=[], after=[None, None], unchanged=False, lazy=None, lazy_errs=[True])
     cur_sch = [list(f) for f in sch]
     ops = []
     for op, ob in zip(case['prog'], o['steps'] + [None] * len(case['prog'])):
@@ -692,12 +835,13 @@ def to_coq(case, o):
         if op[0] == 'addt1' and ob is not None and 'cols' in ob:
             cur_sch = [list(f) for f in sch] + [[op[1], op[2]]]
     return ('{| k_sch := %s; k_a0 := %s; k_a1 := %s; k_prog := %s; k_t0 := %s; k_t1 := %s; k_steps := %s; '
-            'k_t0_after := %s; k_t1_after := %s; k_unchanged := %s |}' % (
+            'k_t0_after := %s; k_t1_after := %s; k_unchanged := %s; k_lazy := %s; k_lazy_errs := %s |}' % (
                 _schema(sch),
                 clist([_colarg(k, c) for (_, k), c in zip(sch, case['c0'])], 'colarg'),
                 clist([_colarg(k, c) for (_, k), c in zip(sch, case['c1'])], 'colarg'),
                 clist(ops, 'op'), _obs(o['t0']), _obs(o['t1']), clist([_obs(s) for s in o['steps']], 'obs'),
-                _obs(o['after'][0]), _obs(o['after'][1]), cbool(o['unchanged'])))
+                _obs(o['after'][0]), _obs(o['after'][1]), cbool(o['unchanged']),
+                _obs(o.get('lazy')), clist([cbool(b) for b in o.get('lazy_errs', [])], 'bool')))
 
 
 # ------------------------------------------------------------------------------------------------ evidence helpers
@@ -711,8 +855,8 @@ def _reprs(sch):
 
 def nontrivial(case, o):
     tab_ops = [p for p in case['prog'] if p[0] not in ('index', 'iter')]
-    n0 = len(case['c0'][0]) if not _is_nested(case['schema'][0][1]) else len(case['c0'][0][0])
-    n1 = len(case['c1'][0]) if not _is_nested(case['schema'][0][1]) else len(case['c1'][0][0])
+    n0 = _ncol(case['schema'][0][1], case['c0'][0])
+    n1 = _ncol(case['schema'][0][1], case['c1'][0])
     return len(_reprs(case['schema'])) >= 2 and max(n0, n1) >= 1 and len(tab_ops) >= 1
 
 
@@ -730,7 +874,7 @@ def distribution(cases, obs):
             d['kinds'][kk] = d['kinds'].get(kk, 0) + 1
         for p in c['prog']:
             d['ops'][p[0]] = d['ops'].get(p[0], 0) + 1
-        n0 = str(len(c['c0'][0]) if not _is_nested(c['schema'][0][1]) else len(c['c0'][0][0]))
+        n0 = str(_ncol(c['schema'][0][1], c['c0'][0]))
         d['rows0'][n0] = d['rows0'].get(n0, 0) + 1
         d['prog_len'][str(len(c['prog']))] = d['prog_len'].get(str(len(c['prog'])), 0) + 1
         for s in (o or {}).get('steps', []):
@@ -767,6 +911,8 @@ def _in_val(k, v):
 
 
 def _in_col(k, col):
+    if isinstance(col, dict):
+        return [('z', 4 * int(v)) for v in _vals(col)]
     if _is_nested(k):
         subs = [_in_col(sk, c) for (_, sk), c in zip(k[1], col)]
         return [('n', tuple(r)) for r in zip(*subs)] if subs and len(set(map(len, subs))) == 1 else None
@@ -781,7 +927,13 @@ def _cell_valid(k, v):
     return True
 
 
+def _big_ok(vs):
+    return all(-2 ** 63 <= v < 2 ** 63 for v in vs) or all(0 <= v < 2 ** 64 for v in vs)
+
+
 def _col_valid(k, col):
+    if isinstance(col, dict):
+        return k in ('int', 'opt') and ('arr' in col or _big_ok(col['big']))
     if _is_nested(k):
         return all(_col_valid(sk, c) for (_, sk), c in zip(k[1], col)) and len(set(len(c) for c in col)) == 1
     return all(_cell_valid(k, v) for v in col)
@@ -804,12 +956,22 @@ def _deviations(case, o):
     rows = lambda ob: [tuple(_val(c) for c in r) for r in ob['rows']]
     cur, t1 = rows(o['t0']), rows(o['t1'])
     dev = []
-    # construction of the operands: unacceptable arguments must have raised
+    # construction of the operands: unacceptable arguments must have raised, acceptable ones give exactly their rows
     for key, cols in (('t0', case['c0']), ('t1', case['c1'])):
         bad = [(k, c) for (_, k), c in zip(sch, cols) if not _col_valid(k, c)]
         if bad:
-            tag = 'C19-flat-encoded-column-multichar-entries' if all(_only_multichar_strand(k, c) for k, c in bad) else None
+            tag = ('C19-flat-encoded-column-multichar-entries' if all(_only_multichar_strand(k, c) for k, c in bad)
+                   else 'C19-int-column-mixed-magnitude-float64' if all(_mixed_big(c) for k, c in bad) else None)
             dev.append((-1, ['construct', key], o[key], tag))
+        else:
+            cc = [_in_col(k, c) for (_, k), c in zip(sch, cols)]
+            if all(c is not None for c in cc) and len(set(map(len, cc))) == 1:
+                want_rows = [tuple(r) for r in zip(*cc)]
+                got = rows(o[key])
+                if got != want_rows:
+                    tag = ('C19-int-column-mixed-magnitude-float64'
+                           if _only_rounding(want_rows, got) == {'z'} and any(_mixed_big(c) for c in cols) else None)
+                    dev.append((-1, ['construct', key], o[key], tag))
     for i, (op, ob) in enumerate(zip(case['prog'], o['steps'])):
         n = len(cur)
         k = op[0]
@@ -862,6 +1024,12 @@ def _deviations(case, o):
                 tag = 'C19-add-fields-zero-rows'
             elif k == 'sort' and ob.get('err') == 'TypeError' and sch[op[1]][1] in ('id', 'str', 'dna'):
                 tag = 'C19-sort-by-string-column'
+            elif (k in ('replace', 'rows') and want[0] == 'tab' and got_rows is not None
+                  and _only_rounding(want[1], got_rows) == {'z'}
+                  and (_mixed_big(op[2]) if k == 'replace' else _rows_mixed(cur))):
+                tag = 'C19-int-column-mixed-magnitude-float64'
+            elif k == 'replace' and want[0] == 'err' and got_rows is not None and _mixed_big(op[2]):
+                tag = 'C19-int-column-mixed-magnitude-float64'
             elif k in ('catr', 'catl', 'cats', 'cat3', 'replace') and want[0] == 'tab' and got_rows is not None and _only_rounding(want[1], got_rows):
                 kinds = _only_rounding(want[1], got_rows)
                 tag = 'C19-int-list-column-promoted-to-float64' if kinds == {'l'} else 'C19-int-column-promoted-to-float64' if kinds == {'z'} else None
@@ -894,6 +1062,23 @@ def _key_le(a, b):
     return True
 
 
+def _mixed_big(col):
+    """an int column given as python ints / array values both below and at-or-above 2**63 (all within [-2**63, 2**64))"""
+    if not isinstance(col, dict):
+        return False
+    vs = [int(v) for v in _vals(col)]
+    return (all(-2 ** 63 <= v < 2 ** 64 for v in vs) and any(v >= 2 ** 63 for v in vs) and any(v < 2 ** 63 for v in vs))
+
+
+def _rows_mixed(rows_):
+    """some numeric column of these rows holds values both below and at-or-above 2**63"""
+    for j in range(len(rows_[0]) if rows_ else 0):
+        vs = [r[j][1] for r in rows_ if r[j][0] == 'z']
+        if vs and any(v >= 4 * 2 ** 63 for v in vs) and any(v < 4 * 2 ** 63 for v in vs):
+            return True
+    return False
+
+
 def _only_rounding(want, got):
     """rows equal except numbers of magnitude >= 2^53 that came back as a neighbouring double.  Returns the set of cell
     kinds affected ({'z'} plain numeric cells, {'l'} elements of int-list cells), or None when rows differ otherwise
@@ -922,7 +1107,14 @@ def _only_rounding(want, got):
 def _operands_intact(o):
     def r(ob):
         return ob.get('rows') if isinstance(ob, dict) else None
-    return o.get('unchanged') and r(o.get('t0')) == r(o['after'][0]) and r(o.get('t1')) == r(o['after'][1])
+    # ... and the unobserved second run ended with the same table and raised at the same steps
+    last = o.get('t0')
+    for st in o.get('steps', []):
+        if isinstance(st, dict) and 'rows' in st:
+            last = st
+    same_lazy = r(last) == r(o.get('lazy')) and [('err' in st) for st in o.get('steps', [])] == list(o.get('lazy_errs', []))
+    return (o.get('unchanged') and r(o.get('t0')) == r(o['after'][0]) and r(o.get('t1')) == r(o['after'][1])
+            and same_lazy)
 
 
 def finding(case, o):
